@@ -380,7 +380,8 @@ registered urls are unique up to case — checked on the real registry by the ha
 theorem single_type (s s' : State) (who : Addr) (msgs : List Msg) (initial : Nat) (exp : Bool)
     (h : submit s who msgs initial exp = .ok s') : ∀ a ∈ msgs, ∀ b ∈ msgs, lowerAscii a.ty = lowerAscii b.ty := by
   have hc : checkMsgs msgs = true := by
-    unfold submit at h
+    rw [submit_eq] at h
+    unfold submitSpec at h
     split at h
     · cases h
     · rename_i hc; simpa using hc
@@ -426,8 +427,8 @@ theorem gov_endblock_inactive_total (ops : List Op) (pid : Nat) (p : Proposal) :
     findProp s.props pid = some p → ∃ s', dropInactive pid s = .ok s' := by
   intro s hp
   have hi : Inv s := run_inv rfl rfl rfl ops init init_inv
-  unfold dropInactive
-  simp only [refundRun_eq, burnRun_eq]
+  rw [dropInactive_eq]
+  unfold dropInactiveSpec
   simp only [hp, show inactiveSettleShapeOk = true from rfl, if_true]
   split
   · exact refundDeposits_total (by simpa using hi.bal)
@@ -1248,6 +1249,36 @@ theorem activate_statement_order :
     ∀ (s : State) (p : Proposal), activateRun s p = activate s p :=
   ⟨rfl, activateRun_eq⟩
 
+/-- **`Keeper.SubmitProposal` of that SDK version, and the inactive-queue step of the end-blocker**: the regenerated statement list
+of `SubmitProposal` is the expected one — the message loop with `ValidateBasic`, exactly one signer, that signer the gov account,
+a routed handler and the dry run of a legacy content; then the id is `ProposalID.Next`, the deposit end is the block time +
+`MaxDepositPeriod`, the proposal is stored and entered into the inactive queue under that deposit end — and its interpreted run
+(`sdkSubmitRun`, which the model's `submit` calls between the fx checks and `AddDeposit`) does exactly that, for every state and
+submission; `submit` is the one-piece `submitSpec`, `dropInactive` — `DeleteProposal`, then `RefundAndDeleteDeposits` or
+`DeleteAndBurnDeposits`, all three interpreted — is the one-piece `dropInactiveSpec` of the history theorems, and the SDK's `AddVote`
+(refused unless the id is in the `VotingPeriodProposals` index, then `Votes.Set` under (proposal, voter)), interpreted by the model's
+`vote` after the message server's validation of the options, is the one-piece `voteSpec` -/
+theorem sdk_submit_statement_order :
+    sdkSubmitSteps = ["sdkCtx", "assertMetadata", "assertSummary", "assertTitle", "msgsStr0", "msgLoop", "nextId", "getParams",
+      "submitTime=blockTime", "depositPeriod=maxDepositPeriod", "newProposal(depositEnd=submitTime+depositPeriod)", "setProposal",
+      "inactiveQueueSet:depositEnd", "hooks", "event", "return"] ∧
+    sdkSubmitLoop = ["msgsStr+=", "validateBasic", "getSigners", "oneSigner", "signerIsGov", "handler", "routable", "legacyDryRun"] ∧
+    (∀ (s : State) (proposer : Addr) (msgs : List Msg) (expedited : Bool),
+      sdkSubmitRun s proposer msgs expedited =
+        if !msgs.all (·.wellFormed) then .error "err:msg" else
+        .ok ({ s with nextId := s.nextId + 1,
+                      props := s.props ++ [{ id := s.nextId, msgs := msgs, proposer := proposer, status := .deposit, total := 0,
+                                             depositEnd := s.time + s.params.maxDepositPeriod, votingStart := 0, votingEnd := 0,
+                                             expedited := expedited }],
+                      inactive := insertQ (s.time + s.params.maxDepositPeriod, s.nextId) s.inactive }, s.nextId)) ∧
+    (∀ (s : State) (proposer : Addr) (msgs : List Msg) (initial : Nat) (expedited : Bool),
+      submit s proposer msgs initial expedited = submitSpec s proposer msgs initial expedited) ∧
+    (∀ (pid : Nat) (s : State), dropInactive pid s = dropInactiveSpec pid s) ∧
+    sdkAddVoteSteps = ["inVotingPeriod=VotingPeriodProposals.Has", "rejectUnlessVoting", "assertMetadata", "optionsValid", "newVote",
+      "votesSet", "hooks", "sdkCtx", "event", "return"] ∧
+    (∀ (s : State) (pid : Nat) (voter : Addr) (opts : List (Opt × Nat)), vote s pid voter opts = voteSpec s pid voter opts) :=
+  ⟨rfl, rfl, sdkSubmitRun_eq, submit_eq, dropInactive_eq, rfl, vote_eq⟩
+
 /-- **`RefundAndDeleteDeposits` and `DeleteAndBurnDeposits` of that SDK version**: the callback of the refund walk sends the
 deposit to its depositor and removes the record; the burn walk adds the amount to `coinsToBurn` and removes the record, one
 `BurnCoins` of the sum follows the walk.  Interpreted (`refundRun`, `burnRun`), they are the `refundDeposits` /
@@ -1261,8 +1292,9 @@ theorem sdk_settlement_statements :
   ⟨rfl, rfl, rfl, refundRun_eq, burnRun_eq⟩
 
 /-- **the tally of a block uses the period and quorum configured at the START of the block**, after every history, unless
-another proposal ending in the same block rewrites them: with `s` the state after any operation list and `p` a stored
-proposal whose voting end has been reached, if no OTHER stored proposal whose voting end has been reached carries a
+a proposal tallied BEFORE it in the same block rewrites them: with `s` the state after any operation list and `p` a stored
+proposal whose voting end has been reached, if no stored proposal whose voting end has been reached and which PRECEDES `p` in
+queue order (earlier voting end, or the same end and a smaller id — the order of the end-blocker's walk) carries a
 `MsgUpdateCustomParams`, then the moment `sm` of `voting_ends_exactly_at_period_end` has the custom parameters of `s`: the
 outcome is the specified one with the quorum configured for the message type in `s`, and a failed expedited proposal is
 converted with the regular period configured for its type in `s`.  (Without the hypothesis the tally sees the parameters as
@@ -1272,7 +1304,8 @@ theorem tally_uses_block_start_custom (ops : List Op) (dt : Nat) (stk : Staking)
     let s := run init ops
     let s' := (step s (.endBlock dt stk)).1
     findProp s.props pid = some p → p.status = .voting → stakingOk stk → p.votingEnd ≤ s.time →
-    (∀ id q, id ≠ pid → findProp s.props id = some q → q.status = .voting → q.votingEnd ≤ s.time → noSetCustom q.msgs = true) →
+    (∀ id q, findProp s.props id = some q → q.status = .voting → q.votingEnd ≤ s.time →
+      (q.votingEnd < p.votingEnd ∨ (q.votingEnd = p.votingEnd ∧ id < pid)) → noSetCustom q.msgs = true) →
     ∃ (sm : State) (n : Nums) (q : Proposal), sm.params = s.params ∧ sm.time = s.time ∧ sm.custom = s.custom ∧
       findProp sm.props pid = some p ∧ tallyNums (votesOf sm.votes pid) stk = some n ∧
       findProp s'.props pid = some q ∧
@@ -1287,7 +1320,7 @@ theorem tally_uses_block_start_custom (ops : List Op) (dt : Nat) (stk : Staking)
   simp only [step, hb] at hs'
   have e' : s'.props = s1.props := by rw [hs']
   obtain ⟨sm, q, n, passes, burn, hsm, hpar, htime, hcus, hpm, hn, hr, hq, hend⟩ :=
-    endBlock_voting_custom rfl rfl rfl rfl rfl ha hb hp hv hle hno
+    endBlock_voting_custom rfl rfl rfl rfl rfl ha hb hp hv hle (fun id q h1 h2 h3 h4 => hno id q h1 h2 h3 h4)
   obtain ⟨n', hn', hj, _⟩ := tallyNums_ok (votes := votesOf sm.votes pid) (stk := stk)
     (fun v hv' => hsm.both.v.valid v (mem_votesOf.mp hv').1) hs rfl
   rw [hn] at hn'; cases hn'
@@ -1353,6 +1386,9 @@ theorem stored_tally_result_is_votes_times_stakes (ops : List Op) (dt : Nat) (st
   rfl
 
 /-! ## non-vacuity -/
+
+-- the examples below evaluate whole histories by `decide`; the interpreted statement lists (string tags) need a deeper recursion
+set_option maxRecDepth 16384
 
 def egf : Ty := egfUrl.toList
 def spend (fx other : Nat) : Msg := ⟨egf, true, true, .credit fx other 1, []⟩
@@ -1484,13 +1520,15 @@ def sameBlockOps : List Op :=
     .endBlock 100 demoStk ]
 
 /-- … and the hypothesis of `tally_uses_block_start_custom` is needed: with the parameters of the block start (no custom
-entry, quorum 40 %, turnout 50 %, all yes) proposal 2 passes, but it is tallied AFTER proposal 1 has set the quorum of its
+entry, quorum 40 %, turnout 50 %, all yes) proposal 2 passes, but it is tallied AFTER proposal 1 (same voting end, smaller id:
+it precedes 2 in queue order) has set the quorum of its
 type to 90 % in the same end-blocker walk, and is rejected -/
 example : noSetCustom [setQ] = false ∧
+    ((run init sameBlockOps).props.map (fun p => (p.id, p.votingEnd))) = [(1, 100), (2, 100)] ∧
     (let s := run init sameBlockOps
      (tallyNums (votesOf s.votes 2) demoStk).map (fun n => specPasses s.params (specQuorum s.params s.custom [toggle]) false n) = some true) ∧
     (run init (sameBlockOps ++ [.endBlock 1 demoStk])).props.map (fun p => (p.id, p.status)) = [(1, .passed), (2, .rejected)] := by
-  refine ⟨by decide, by decide, by decide⟩
+  refine ⟨by decide, by decide, by decide, by decide⟩
 
 /-- non-vacuity of `tally_counts_are_stake_times_weight`: proposal 1 of `demoOps` — validator 100 (200 tokens, half of its
 shares held by account 0) votes yes, account 0 votes 70 % no / 30 % abstain: yes = 100 (the validator's own delegation),
